@@ -108,12 +108,29 @@ def to_trace(job, r):
             "gates": r["gates"], "cls": r["cls"], "graph": r["graph"], "cost": r["cost"], "depth": r["depth"],
             "layer": r["layer"], "unchanged": r["unchanged"], "alt": r["alt"], "hasalt": r["hasalt"],
             "raised": 1 if r["exc"] else 0, "fmt": job.get("fmt", ""), "exc": r["exc"] or "", "src": job.get("src", ""),
-            "rep": job.get("rep", -1)}
+            "rep": job.get("rep", -1), "stale": r.get("stale", "")}
 
 
-def run_jobs(ck, L, jobs, what):
+def sign_sweep_jobs(inputs, api, rng, per_n=None):
+    """a few generator lists per register size, each requested with all sign vectors (n<=4) or 8 of them, in ONE worker process"""
+    per_n = per_n or {2: 6, 3: 6, 4: 4, 5: 3, 6: 3}
+    out = []
+    for n in range(2, 7):
+        cand = [i for i in inputs if i["n"] == n]
+        for inp in [cand[rng.randrange(len(cand))] for _ in range(per_n[n])] if cand else []:
+            vectors = list(range(1 << n)) if n <= 4 else sorted({0, (1 << n) - 1} | {rng.randrange(1 << n) for _ in range(6)})
+            for conn in impl.conns(n):
+                out.append({"n": n, "codes": inp["codes"], "conn": conn, "api": api, "vectors": vectors})
+    return out
+
+
+def run_jobs(ck, L, jobs, what, sweeps=()):
     core.dbg(what, "jobs", len(jobs))
     results = par.pmap(workers.api_call, jobs)
+    for res in par.pmap(workers.sign_sweep, list(sweeps)):
+        for j, r in res:
+            jobs = jobs + [j]
+            results = results + [r]
     core.dbg(what, "impl done")
     traces = [to_trace(j, r) for j, r in zip(jobs, results)]
     for t, r in zip(traces, results):
@@ -142,9 +159,12 @@ def report(ck, prop, traces, verdicts, clauses, trivial=is_product_plus):
     for t, (cl, extra) in zip(traces, verdicts):
         ck.count(trace_key(t), not trivial(t))
         bad = cl & clauses
+        if t.get("stale") and "mutated-after-return" in clauses:
+            bad = bad | {"mutated-after-return"}
         if bad:
             desc = (f"{t['kind']} n={t['n']} conn={t['conn']} fmt={t['fmt']} target={t['target'] or '(program)'} "
-                    f"fails {sorted(bad)}" + (f" (raised {t['exc']})" if t["exc"] else ""))
+                    f"fails {sorted(bad)}" + (f" (raised {t['exc']})" if t["exc"] else "")
+                    + (f"; the circuit returned earlier for [{t['stale']}] was modified by a later call" if t.get("stale") else ""))
             ck.violation(f"{t['kind']} {t['n']} {t['conn']} {t['target']} {t['program']}", desc, {"trace": t, "clauses": sorted(bad)})
         else:
             ck.accepted()
